@@ -19,13 +19,14 @@ pub const ZS_MAIN: Shape = unsplit(4, 0b0001, 0);
 fn zst_remove(sh: Shape) {
     let mut m = zst_state(sh);
     let n = m.len();
+    let l0 = old_len(&m);
     let had = m.contains_key(&());
     assert!(had == (n == 1), "[C01] contains_key(()) disagrees with len()");
     let r = m.remove(&());
     assert!(r.is_some() == had, "[C01] remove(()) returned a wrong value");
     assert!(m.len() == 0 && !m.contains_key(&()), "[C01] zero-sized element still present after remove");
     let sq = scan(&m, &());
-    post_freed_if_empty(&m);
+    post_freed_if_empty(&m, l0);
     post_inv(&m, &sq);
     kani::cover!(had, "cls: removed the zero-sized element");
     kani::cover!(true, "reach: end of harness");
